@@ -306,7 +306,7 @@ def run(tier):
     return chk.finish(TRUSTED,
                       ["well-formed theories only (ID->IA, RD->RA, arrays_const->arrays): combine is not an upper bound on ill-formed ones",
                        "Theory.__eq__ isinstance guard and the two asserts in combine are not modelled"],
-                      "theory pairs: uniformly random 12-bit codes, 30% differing in one flag; selection: every named table x every named target, then random sub-lists; detection: random formulas of all theories plus the SORT-SHAPE family (every chain of depth 1..3 over Array index / element positions x leaf sort in {Bool, Int, Real, BV8, String, S} x filler sort x 8 carriers; the nested sort reaches the formula only through a symbol / signature / binder / constant array and is never indexed below the top level), get_theory compared with the model and get_logic / get_theory with the features of the sort tree; distinct = distinct inputs")
+                      "theory pairs: uniformly random 12-bit codes, 30% differing in one flag; selection: every named table x every named target, then random sub-lists; detection: random formulas of all theories plus the SORT-SHAPE family (every chain of depth 1..3 over Array index / element positions x leaf sort in {Bool, Int, Real, BV8, String, S} x filler sort x 8 carriers; the nested sort reaches the formula only through a symbol / signature / binder / constant array and is never indexed below the top level) and the NON-VARIABLE-FACTOR family (factors / operands of Times, Div, Pow that are non-ground only through applied function symbols or ground without being literals, all ordered pairs of 17 kinds per sort, no other non-linearity), get_theory compared with the model and get_logic / get_theory with the features of the sort tree; distinct = distinct inputs")
 
 
 def replay(path):
